@@ -461,3 +461,7 @@ def check(run):
     # agree in every inner dimension, which the coercions decide with ValueType::equals (shared with C07.R5)
     from props import c07
     c07.r5c_equals_structural(run, F)
+    # named lengths live in the per-module typer: a second module must start from a fresh one, or a constant with the same resolution id
+    # inherits the first module's length (shared with C12.R3)
+    from props import c12
+    c12.r3_compiler_reset(run, F)
